@@ -76,3 +76,7 @@ CLAIMED["C09"] = (
  "writer-set / consumer-arm agreement lint: token constants the Wz parser can store per AST field (computed with parameter and guard propagation) vs. every switch arm and comparison on that field in the consumers, against a frozen twin-token table; universe table bijection; keyword spelling uniqueness",
  "Decides that wherever a consumer distinguishes a keyword token on an AST field that the Wz parser fills with the Chinese twin, the twin is handled in the same arm (paired arms stay paired; today's asymmetric sites are read-and-frozen exceptions, a new one is reported), that the two universes define the same builtins with equal arity/kind, and that keyword spellings are unique. Does not decide that the two parsers build equal trees.",
  AST_BASE)
+CLAIMED["C17"] = (
+ "bit-provenance abstract interpretation (known bits + provenance, no solver) of the format encoders and decoders; table rules: RISC-V base-format layout agreement, decoder-inverse composition, encode-key injectivity / decode-key sufficiency over the opcode table; LoongArch operand-bits-vs-opcode-mask and decoder-inverse per format",
+ "Decides, for every format and every table row, that operand bits are placed where the ISA layout (RISC-V) or the row's own opcode mask (LoongArch) allows, that the disassembler reads each operand bit back from where the assembler wrote it with the right extension, and that no two real instructions share every table field the encoder reads (known exceptions recorded). Does not decide opcode values against an independent ISA table, immediate range checking, pseudo-instructions, ARM64 (unimplemented) or x86-64.",
+ AST_BASE + "; RISC-V base format layouts from the unprivileged ISA specification")
